@@ -222,6 +222,15 @@ func (w *world) eval(line string) (out evalOut) {
 	case "PARAMS":
 		out.impl = w.paramsText(g)
 		out.model = []string{"PARAMS " + m}
+	case "HYP":
+		// the named hypotheses of the Coq theorems, decided for this curve (parameters as the API reports them)
+		cc := c
+		func() {
+			defer func() { _ = recover() }()
+			cc = deriveRef(g)
+		}()
+		out.impl = hypothesisCheck(cc)
+		out.ref = "ok"
 	case "ADD", "SUB":
 		if !need(2) {
 			return out
@@ -354,6 +363,65 @@ func (w *world) eval(line string) (out evalOut) {
 		out.impl = g.text(g.lowMul(p, b))
 		out.ref = c.text(c.mul(k, rp))
 		out.model = []string{"MUL " + m + " " + hexZ(k) + " " + vh.Hex(b) + " " + args[1]}
+	case "AUMUL":
+		// algebrautils.ScalarMul: the same window algorithm on the big-endian bytes of a natural number
+		if !need(2) {
+			return out
+		}
+		k, err := parseHex(args[0])
+		if err != nil {
+			out.skip = err.Error()
+			return out
+		}
+		p, rp := pt(args[1])
+		r, be := g.auMul(p, k)
+		out.impl = g.text(r)
+		out.ref = c.text(c.mul(k, rp))
+		leb := slices.Clone(be)
+		slices.Reverse(leb)
+		out.model = []string{"MUL " + m + " " + args[0] + " " + vh.Hex(leb) + " " + args[1]}
+	case "AUMSM":
+		var ks []*big.Int
+		var ps []any
+		acc := c.id()
+		for _, t := range args {
+			tf := strings.Split(t, ";")
+			if len(tf) != 2 {
+				out.skip = "bad term"
+				return out
+			}
+			p, rp := pt(tf[1])
+			k, err := parseHex(tf[0])
+			if err != nil {
+				out.skip = err.Error()
+				return out
+			}
+			ks, ps = append(ks, k), append(ps, p)
+			acc = c.add(acc, c.mul(k, rp))
+		}
+		r, bes, panicked := g.auMSM(ks, ps)
+		if len(args) == 0 {
+			// the generic function documents the empty input as a refusal (panic)
+			out.impl, out.ref, out.triv = "refused", "refused", true
+			if !panicked {
+				out.impl = g.text(r)
+				out.ref = c.text(c.id())
+			}
+			return out
+		}
+		if panicked {
+			out.impl = "PANIC"
+		} else {
+			out.impl = g.text(r)
+		}
+		out.ref = c.text(acc)
+		terms := make([]string, len(args))
+		for i := range args {
+			leb := slices.Clone(bes[i])
+			slices.Reverse(leb)
+			terms[i] = hexZ(ks[i]) + ";" + vh.Hex(leb) + ";" + strings.Split(args[i], ";")[1]
+		}
+		out.model = []string{"MSM " + m + " " + strings.Join(terms, " ")}
 	case "MSM", "MSMN", "LMSM":
 		var ss []any
 		var raws [][]byte
@@ -681,7 +749,7 @@ func agree(line string, impl string, model []string) (bool, string) {
 	}
 	mo := model[0]
 	switch op {
-	case "MUL", "BASEMUL", "LMUL":
+	case "MUL", "BASEMUL", "LMUL", "AUMUL":
 		// model prints "naive window": the naive double-and-add value and the window algorithm
 		mf := strings.Split(mo, " ")
 		if len(mf) != 2 {
@@ -699,7 +767,7 @@ func agree(line string, impl string, model []string) (bool, string) {
 			return false, "implementation " + impl + " != sum k_i*P_i of the affine model " + mo
 		}
 		return true, ""
-	case "MSM", "LMSM":
+	case "MSM", "LMSM", "AUMSM":
 		mf := strings.Split(mo, " ")
 		if len(mf) != 2 {
 			return false, "model: " + mo
@@ -804,12 +872,14 @@ func whatOf(line string) string {
 		return "correspondence Equal/IsZero; theorem equal_iff_same_affine"
 	case "ONC":
 		return "correspondence SetAffine = on_curve; theorem set_affine_iff_on_curve"
-	case "MUL", "BASEMUL", "LMUL":
+	case "MUL", "BASEMUL", "LMUL", "AUMUL":
 		return "correspondence ScalarMul = waff_mul and = scalar_mul_window (ScalarMul.v); theorem scalar_mul_window_correct"
-	case "MSM", "LMSM", "MSMN":
+	case "MSM", "LMSM", "MSMN", "AUMSM":
 		return "correspondence MultiScalarMul = sum k_i*P_i and = msm (ScalarMul.v); theorem msm_correct"
 	case "F":
 		return "correspondence field operation = Zp / Fp2 (Fld.v, Curve.v)"
+	case "HYP":
+		return "hypotheses no_two_torsion / char not 2,3 / d non-square, a square of the C14 theorems hold for this curve"
 	case "PARAMS":
 		return "hand-written constants of CurveParams.v = parameters reported by the API"
 	case "PAIR", "PAIRND":
@@ -822,7 +892,7 @@ func whatOf(line string) string {
 // with the math/big reference.
 func (w *world) shrinkMSM(line string) string {
 	f := strings.Split(line, " ")
-	if len(f) < 4 || (f[0] != "MSM" && f[0] != "MSMN" && f[0] != "LMSM") {
+	if len(f) < 4 || (f[0] != "MSM" && f[0] != "MSMN" && f[0] != "LMSM" && f[0] != "AUMSM") {
 		return line
 	}
 	bad := func(l string) bool {
